@@ -7,4 +7,5 @@ import DSymVerif.Props.C17
 #print axioms DSymVerif.C17.decide_needs_cover
 #print axioms DSymVerif.C17.prefix_consistent
 #print axioms DSymVerif.C17.invariants_table_wellformed
+#print axioms DSymVerif.C17.invariants_table_reachable
 #print axioms DSymVerif.C17.cubicKey_value
